@@ -449,6 +449,17 @@ def build_scale(item, ra, rb):
             f"sc_frames_b := {core.clist(QL(f) for f in fb)} |}}")
 
 
+def build_sched(item, res):
+    """The Readout object the exposure ran with and the detector's readout properties: start, times, steps, mode."""
+    p = item["payloads"][0]
+    if "sched" not in res:
+        raise ValueError("the run raised: " + str(res.get("raise")))
+    obs = [f"{{| so_start := {Q(fr(o['start']))}; so_times := {QL(fr(t) for t in o['times'])}; "
+           f"so_steps := {QL(fr(t) for t in o['steps'])}; so_nd := {core.cbool(o['nd'])} |}}" for o in res["sched"]]
+    return (f"CSched {{| sh_tol := {Q(tol_of(item))}; sh_start := {Q(fr(p['start']))}; "
+            f"sh_times := {QL(fr(t) for t in p['times'])}; sh_nd := {core.cbool(p['nd'])}; sh_obs := {core.clist(obs)} |}}")
+
+
 def bucket_of(m):
     return "photon" if m["m"] in ("illumination", "load_image", "stripe_pattern", "usaf_illumination",
                                   "scene_collection") else "charge"
@@ -848,12 +859,26 @@ def refused_items(r):
             for s, ts in bad for nd in (True,)]
 
 
+def sched_items(items):
+    """For the exposures already in the run (no extra driver work): the schedule carried by the Readout object
+    and by the detector - every exposure whose schedule was not simply given to the constructor, and every
+    third of the others."""
+    out, k = [], 0
+    for it in items:
+        if it["type"] != "exp" or it.get("refused"):
+            continue
+        k += 1
+        if it["payloads"][0].get("route") or k % 3 == 0:
+            out.append(dict(type="sched", dy=it.get("dy", True), payloads=it["payloads"]))
+    return out
+
+
 def corpus_items():
     """Minimised past failures (harness/corpus/C17/*.json), run first."""
     out = []
     for f in sorted((core.VERIF / "harness" / "corpus" / "C17").glob("*.json")):
         c = json.loads(f.read_text())
-        if c.get("type") in ("exp", "pair", "scale", "inc", "lin", "rate", "life") and c.get("payloads"):
+        if c.get("type") in ("exp", "pair", "scale", "inc", "lin", "rate", "life", "sched") and c.get("payloads"):
             out.append({k: c[k] for k in ("type", "dy", "payloads", "c", "refused", "name") if k in c})
     return out
 
@@ -888,6 +913,8 @@ def evaluate(ctx: Ctx, items, tag="c", per=30):
         try:
             if it["type"] == "exp":
                 lits = [build_exp(it, rs[0])]
+            elif it["type"] == "sched":
+                lits = [build_sched(it, rs[0])]
             elif it["type"] == "pair":
                 lits = [build_pair(it, *rs)]
             elif it["type"] == "scale":
@@ -974,6 +1001,8 @@ def clause_of(rec):
         return "increment_differs_from_rate_times_step"
     if t == "life":
         return "bucket_lifecycle"
+    if t == "sched":
+        return "steps_differ_from_schedule"
     if t == "pair":
         return "partition_dependent"
     if t == "scale":
@@ -1022,6 +1051,8 @@ EXPECTED = {
     "destructive_frame_closed_form": "frame i = (total rate) * (t_i - t_(i-1))",
     "bucket_lifecycle": "detector.empty(reset) empties photon and charge, and pixel exactly when reset is True (default True), "
                         "on every detector type",
+    "steps_differ_from_schedule": "the Readout object and the detector's readout properties carry the requested start, times "
+                                  "and mode, and steps = diff([start] + times), however the schedule was established",
     "valid_exposure_raised": "an accepted schedule with valid models runs",
     "invalid_schedule_accepted": "the schedule is refused",
 }
@@ -1031,7 +1062,7 @@ def to_violation(rec) -> Violation:
     it = rec["item"]
     clause = clause_of(rec)
     res = rec["results"]
-    obs = [{k: v for k, v in x.items() if k in ("pixel", "raise", "msg")} if it["type"] in ("exp", "pair", "scale")
+    obs = [{k: v for k, v in x.items() if k in ("pixel", "raise", "msg", "sched")} if it["type"] in ("exp", "pair", "scale", "sched")
            else ({k: v for k, v in x.items() if k in ("cls", "buckets", "raise", "msg")} if it["type"] == "life" else x["steps"])
            for x in res]
     stream = "dyadic" if it.get("dy", True) else "nondyadic_tol1e-9"
@@ -1179,6 +1210,10 @@ def coverage(ctx: Ctx, recs):
             ctx.dist("detector_empty_called", f"{p['det'].get('kind')}.empty({'' if p['arg'] == 'default' else p['arg']})")
             seen.add(json.dumps([t, it["payloads"]], sort_keys=True))
             continue
+        if t == "sched":
+            ctx.dist("schedule_object_judged", p.get("route", "ctor"))
+            seen.add(json.dumps([t, it["payloads"]], sort_keys=True))
+            continue
         if t in ("exp", "pair", "scale"):
             for q in it["payloads"]:
                 ctx.dist("detector_x_mode_x_entry", f"{q['det'].get('kind', 'ccd')}/{'nd' if q['nd'] else 'destr'}/{q.get('entry', 'run_mode')}")
@@ -1248,6 +1283,7 @@ def run(ctx: Ctx):
     items += exposure_items(ctx, r, 24 if q else 240, 24 if q else 200, 16 if q else 160, True, subsets)
     items += exposure_items(ctx, ctx.rng("exp-nd"), 8 if q else 50, 6 if q else 40, 6 if q else 40, False)
     items += refused_items(r)
+    items += sched_items(items)
     recs = evaluate(ctx, items)
     seen = coverage(ctx, recs)
     ctx.cov["distinct_nontrivial"] = len(seen)
